@@ -6,6 +6,8 @@ import contextlib
 import math
 from fractions import Fraction
 
+import zlib
+
 import numpy as np
 import scipy.optimize
 import scipy.special
@@ -210,6 +212,9 @@ def ctor_form(name, args, eb, rsc, cb):
     return [{}, {"verbose": False}, {"verbose": True}][h]
 
 
+ARG_TYPES = {}
+
+
 def call(PL, name, args, eb, rsc, cb, record=False, positional_degree=False, return_coef=None):
     """run generate(); returns dict(status, coefs, scale, raw_type, rec).  return_coef: None = not passed
     (library default), True / False = passed explicitly (False: the polynomial OBJECT is returned; its
@@ -220,6 +225,12 @@ def call(PL, name, args, eb, rsc, cb, record=False, positional_degree=False, ret
     def cls():
         return cls0(**ck)
     kw = dict(args)
+    # the same numbers as a caller holds them after NumPy arithmetic (np.int64 degree, np.float64 parameters): a third of the calls
+    arg_types = "python"
+    if zlib.crc32(repr((name, sorted(args.items()), eb, rsc, cb)).encode()) % 3 == 0:
+        arg_types = "numpy-scalars"
+        kw = {k: (np.int64(v) if (isinstance(v, int) and not isinstance(v, bool)) else (np.float64(v) if isinstance(v, float) else v)) for k, v in kw.items()}
+    ARG_TYPES[arg_types] = ARG_TYPES.get(arg_types, 0) + 1
     if return_coef is not None and REG[name][1] in ("cos", "sin", "inv"):
         kw["return_coef"] = bool(return_coef)
     pos = []
@@ -237,7 +248,7 @@ def call(PL, name, args, eb, rsc, cb, record=False, positional_degree=False, ret
             else:
                 r = cls().generate(*pos, **kw)
     except Exception as e:  # noqa
-        return {"status": "raise", "exc": type(e).__name__, "msg": str(e)[:80], "rec": rec}
+        return {"status": "raise", "exc": type(e).__name__, "msg": str(e)[:80], "rec": rec, "arg_types": arg_types}
     scale = None
     raw = type(r).__name__
     if isinstance(r, tuple):
@@ -246,7 +257,7 @@ def call(PL, name, args, eb, rsc, cb, record=False, positional_degree=False, ret
     c = np.array(getattr(r, "coef", r), copy=True)
     core.poison(r)                    # the caller owns what generate() returned; the library must not have kept it
     return {"status": "ok", "coefs": c, "scale": scale, "raw_type": raw, "rec": rec, "constructor": ck,
-            "object_form": hasattr(r, "coef")}
+            "object_form": hasattr(r, "coef"), "arg_types": arg_types}
 
 
 def enc_opts(eb, rsc, cb):
